@@ -487,3 +487,77 @@ def x_(val, v):
     if r is None or r in (INF, -INF):
         raise Undefined()
     return r
+
+
+# ------------------------------------------------------------------ end-to-end models (NL level), for checks/c06.py stage 4
+def gen_e2e_model(r):
+    """small NL model with logical structure under negations / implications / iff over comparisons of
+    linear, abs, min/max, product, if-then-else and count expressions; returns (nlgen.Model, grids)."""
+    import nlgen as N
+    m = N.Model()
+    grids = []
+    nv = r.rint(2, 3)
+    for _ in range(nv):
+        k = r.below(6)
+        if k <= 2:
+            lo, hi = r.choice([(0, 5), (0, 4), (-3, 3), (1, 6), (-2, 4)])
+            m.var(lo, hi, True); grids.append([F(v) for v in range(lo, hi + 1)])
+        elif k == 3:
+            m.var(0, 1, True); grids.append([F(0), F(1)])
+        else:
+            lo, hi = r.choice([(0, 3), (-2, 2), (0, 4)])
+            m.var(lo, hi, False); grids.append([F(lo) + F(i, 2) for i in range(2 * (hi - lo) + 1)])
+
+    def v():
+        return ('v', r.below(nv))
+
+    def num(d):
+        k = r.below(10) if d > 0 else r.below(4)
+        if k <= 1:
+            return v()
+        if k == 2:
+            return ('+', v(), v())
+        if k == 3:
+            return ('-', v(), ('n', F(r.rint(0, 3))))
+        if k == 4:
+            return ('abs', ('-', num(d - 1), ('n', F(r.rint(0, 3)))))
+        if k == 5:
+            return (r.choice(['min', 'max']), [num(d - 1), num(d - 1)])
+        if k == 6:
+            return ('*', v(), v())
+        if k == 7:
+            return ('if', log(d - 1), num(d - 1), num(d - 1))
+        if k == 8:
+            return ('count', [log(d - 1) for _ in range(r.rint(2, 3))])
+        return ('*', ('n', F(r.choice([2, -1, -2]))), v())
+
+    def atom(d):
+        op = r.choice(['ge', 'ge', 'le', 'le', 'gt', 'lt', 'eq', 'ne'])
+        return (op, num(d), ('n', F(r.rint(-1, 5))))
+
+    def log(d):
+        if d <= 0:
+            return atom(0)
+        k = r.below(12)
+        if k <= 2:
+            return atom(d)
+        if k <= 4:
+            return ('not', log(d - 1))
+        if k <= 6:
+            return (r.choice(['and', 'or']), log(d - 1), log(d - 1))
+        if k == 7:
+            return (r.choice(['forall', 'exists']), [log(d - 1) for _ in range(r.rint(2, 3))])
+        if k <= 9:
+            return ('implies', log(d - 1), log(d - 1), log(d - 1) if r.chance(1, 2) else ('T',))
+        return ('iff', log(d - 1), log(d - 1))
+
+    for _ in range(r.rint(1, 2)):
+        e = log(r.rint(1, 3))
+        if r.chance(1, 2):
+            e = ('not', e)
+        m.lcon(e)
+    if r.chance(1, 3):
+        m.con(None, F(r.rint(2, 8)), lin={}, nl=num(2))
+    if r.chance(1, 2):
+        m.obj('min', lin={0: 1}, nl=num(1) if r.chance(1, 2) else None)
+    return m, grids
